@@ -92,15 +92,31 @@ def decidingProxy (cur prev : Proxy) : Proxy :=
   { cur with prevScope := prev.scope, prevTargets := prev.targets, prevMg := prev.mg,
              prevLocalSvc := prev.localSvc }
 
-/-- the model request of a V2 protocol request: keys and reasons as merged by debouncer and queue -/
-def reqOfV2 (r : ProtocolV2.Req Key σ Reason) : Req :=
-  { keys := r.keys, reasons := r.reasons, forced := false }
+/-- For a proxy that is not a waypoint the decision does not read the waypoint references at all
+    (they are only consulted by `waypointNeedsPush`, behind a test of the proxy type). -/
+theorem pushDecision_wrefs_irrelevant (root : Nat) (t : XType) (r : Req) (p : Proxy) (ws : List WRef)
+    (h : (p.ty == .waypoint) = false) :
+    pushDecision root t { r with wrefs := ws } p = pushDecision root t r p := by
+  cases t <;>
+    simp [pushDecision, typeNeedsPush, proxyNeedsPush, cdsNeedsPush, edsNeedsPush, ldsNeedsPush,
+      rdsNeedsPush, ndsNeedsPush, ecdsNeedsPush, sdsNeedsPush, pcdsNeedsPush, xdsNeedsPush, h,
+      headlessInit]
+
+/-- The model request of a V2 protocol request: keys and reasons as merged by debouncer and queue,
+    and the waypoint references as a FUNCTION OF THE ANNOUNCED KEYS: `att k` are the references the
+    ambient index attaches to an event of key `k` (the waypoints the address is attached to;
+    `PushRequest.Merge` unions them like the keys). `att` is static: attachment changes of an address
+    during the history are outside the theorems below (or take the union over the history). With
+    `att := fun _ => []` the frame hypothesis is unsatisfiable for waypoint proxies
+    (`InstantiationExample.wp_frame_needs_wrefs`). -/
+def reqOfV2 (att : Key → List WRef) (r : ProtocolV2.Req Key σ Reason) : Req :=
+  { keys := r.keys, reasons := r.reasons, forced := false, wrefs := r.keys.flatMap att }
 
 /-- the modelled decision as a V2 protocol decision: it reads the view of the world the proxy was
     last synced at (`wl`) and of the snapshot being pushed (`r.push`) -/
-def modelDecV2 (root : Nat) (view : ProtocolV2.World Key → π → Proxy) :
+def modelDecV2 (root : Nat) (att : Key → List WRef) (view : ProtocolV2.World Key → π → Proxy) :
     π → XType → ProtocolV2.World Key → ProtocolV2.Req Key σ Reason → Bool :=
-  fun p t wl r => pushDecision root t (reqOfV2 r) (decidingProxy (view r.push p) (view wl p))
+  fun p t wl r => pushDecision root t (reqOfV2 att r) (decidingProxy (view r.push p) (view wl p))
 
 /-- Reasons of ordinary changes. A change announced with `HeadlessEndpointUpdate` is a MARKER (only the
     endpoints of a headless service moved; the generators' own semantics of that marker is in
@@ -112,10 +128,12 @@ def OrdinaryReason (x : Reason) : Prop := x ≠ .headless
 
 /-- relevance of a key between two worlds = its single-key request, with the reasons of the merged
     request, is pushed for the proxy as it looks between those worlds -/
-def SingleKeyRelAt (root : Nat) (rs : List Reason) (view : ProtocolV2.World Key → π → Proxy) :
+def SingleKeyRelAt (root : Nat) (att : Key → List WRef) (rs : List Reason)
+    (view : ProtocolV2.World Key → π → Proxy) :
     ProtocolV2.World Key → ProtocolV2.World Key → Key → π → XType → Prop :=
   fun wl w' k p t =>
-    pushDecision root t { keys := [k], reasons := rs, forced := false } (decidingProxy (view w' p) (view wl p)) = true
+    pushDecision root t { keys := [k], reasons := rs, forced := false, wrefs := att k }
+      (decidingProxy (view w' p) (view wl p)) = true
 
 /-- The frame hypothesis for the modelled decision over dynamic views, for requests of ordinary
     reasons: whenever every key on which two worlds differ would - alone, with the request's reasons,
@@ -123,28 +141,29 @@ def SingleKeyRelAt (root : Nat) (rs : List Reason) (view : ProtocolV2.World Key 
     (from-scratch) snapshots agrees.  A statement about the REAL generators, scope computation and
     skip tables together; it is what the `converge` stream validates (and it fails on the recorded
     findings). `InstantiationExample.lean` shows it is satisfiable together with the other hypotheses. -/
-def ModelFrame (root : Nat) (view : ProtocolV2.World Key → π → Proxy)
+def ModelFrame (root : Nat) (att : Key → List WRef) (view : ProtocolV2.World Key → π → Proxy)
     (gen : σ → π → XType → ρ) (build : ProtocolV2.World Key → σ) : Prop :=
   ∀ (rs : List Reason), (∀ x ∈ rs, OrdinaryReason x) → ∀ (wl w' : ProtocolV2.World Key) (p : π) (t : XType),
-    (∀ k, wl k ≠ w' k → ¬ SingleKeyRelAt root rs view wl w' k p t) → gen (build wl) p t = gen (build w') p t
+    (∀ k, wl k ≠ w' k → ¬ SingleKeyRelAt root att rs view wl w' k p t) → gen (build wl) p t = gen (build w') p t
 
 omit [DecidableEq π] in
 /-- Under `ModelFrame` the modelled decision satisfies `SkipOKOn OrdinaryReason`: by monotonicity a
     skipped merged request skips each of its keys alone (same reasons, same proxy), and the keys on
     which the two worlds differ are all announced. -/
-theorem modelDecV2_skipOKOn (root : Nat) (view : ProtocolV2.World Key → π → Proxy)
+theorem modelDecV2_skipOKOn (root : Nat) (att : Key → List WRef) (view : ProtocolV2.World Key → π → Proxy)
     (gen : σ → π → XType → ρ) (build : ProtocolV2.World Key → σ)
-    (hframe : ModelFrame root view gen build) :
-    ProtocolV2.SkipOKOn OrdinaryReason gen build (modelDecV2 (σ := σ) root view) := by
+    (hframe : ModelFrame root att view gen build) :
+    ProtocolV2.SkipOKOn OrdinaryReason gen build (modelDecV2 (σ := σ) root att view) := by
   intro p t wl r hrs _ hdec hcov
   apply hframe r.reasons hrs wl r.push p t
   intro k hk hrel
   have hmem : k ∈ r.keys := hcov k hk
-  have hmono := pushDecision_mono root t { keys := [k], reasons := r.reasons, forced := false } (reqOfV2 r)
+  have hmono := pushDecision_mono root t
+    { keys := [k], reasons := r.reasons, forced := false, wrefs := att k } (reqOfV2 att r)
     (decidingProxy (view r.push p) (view wl p))
     (by intro k' hk'; simp only [List.mem_singleton] at hk'; subst hk'; exact hmem)
-    rfl (by intro w hw; exact hw) (by intro h; exact h) hrel
-  have : modelDecV2 (σ := σ) root view p t wl r = true := hmono
+    rfl (by intro w hw; exact List.mem_flatMap.mpr ⟨k, hmem, hw⟩) (by intro h; exact h) hrel
+  have : modelDecV2 (σ := σ) root att view p t wl r = true := hmono
   rw [hdec] at this
   exact Bool.noConfusion this
 
@@ -155,20 +174,21 @@ theorem modelDecV2_skipOKOn (root : Nat) (view : ProtocolV2.World Key → π →
     generators satisfy `ModelFrame`, then after every finite history of ORDINARY changes (no
     headless-endpoint marker events), under every batching and interleaving, every connected client
     in every quiescent state holds exactly what a freshly started control plane generates from the
-    final configuration. (Limits: `change` is atomic - see `ProtocolV3.store_ahead_breaks_convergence`;
+    final configuration. Waypoint proxies are covered through `att` (the references an address event
+    carries, a static function of the key). (Limits: `change` is atomic - see `ProtocolV3.store_ahead_breaks_convergence`;
     the scope is taken as always refreshed - see `convergence_model_refresh` below.) -/
-theorem convergence_model (root : Nat) (view : ProtocolV2.World Key → π → Proxy)
+theorem convergence_model (root : Nat) (att : Key → List WRef) (view : ProtocolV2.World Key → π → Proxy)
     (gen : σ → π → XType → ρ) (build : ProtocolV2.World Key → σ)
     (rebuild : σ → List Key → Bool → ProtocolV2.World Key → σ)
-    (hrb : ProtocolV2.RebuildOK build rebuild) (hframe : ModelFrame root view gen build)
+    (hrb : ProtocolV2.RebuildOK build rebuild) (hframe : ModelFrame root att view gen build)
     (w0 : ProtocolV2.World Key) (h0 : π → XType → ρ) (l : List (ProtocolV2.Step Key π Reason))
     (hl : ProtocolV2.StepsCarry OrdinaryReason l)
-    (hq : ProtocolV2.Quiescent (ProtocolV2.run rebuild gen (modelDecV2 (σ := σ) root view) (ProtocolV2.init build w0 h0) l)) :
-    ∀ p t, (ProtocolV2.run rebuild gen (modelDecV2 (σ := σ) root view) (ProtocolV2.init build w0 h0) l).conn p = true →
-      (ProtocolV2.run rebuild gen (modelDecV2 (σ := σ) root view) (ProtocolV2.init build w0 h0) l).held p t =
-        gen (build (ProtocolV2.run rebuild gen (modelDecV2 (σ := σ) root view) (ProtocolV2.init build w0 h0) l).world) p t :=
-  ProtocolV2.convergence_on OrdinaryReason build rebuild gen (modelDecV2 (σ := σ) root view) hrb
-    (modelDecV2_skipOKOn root view gen build hframe) w0 h0 l hl hq
+    (hq : ProtocolV2.Quiescent (ProtocolV2.run rebuild gen (modelDecV2 (σ := σ) root att view) (ProtocolV2.init build w0 h0) l)) :
+    ∀ p t, (ProtocolV2.run rebuild gen (modelDecV2 (σ := σ) root att view) (ProtocolV2.init build w0 h0) l).conn p = true →
+      (ProtocolV2.run rebuild gen (modelDecV2 (σ := σ) root att view) (ProtocolV2.init build w0 h0) l).held p t =
+        gen (build (ProtocolV2.run rebuild gen (modelDecV2 (σ := σ) root att view) (ProtocolV2.init build w0 h0) l).world) p t :=
+  ProtocolV2.convergence_on OrdinaryReason build rebuild gen (modelDecV2 (σ := σ) root att view) hrb
+    (modelDecV2_skipOKOn root att view gen build hframe) w0 h0 l hl hq
 
 /-! ### The proxy state is only refreshed when `computeProxyState` says so -/
 
@@ -228,10 +248,11 @@ theorem refreshedView_eq (view : ProtocolV2.World Key → π → Proxy) (h : Ref
   simp only [h1, h2, h3, h4]
 
 /-- the modelled decision with the refresh decisions of `computeProxyState` taken into account -/
-def modelDecV2R (root : Nat) (view : ProtocolV2.World Key → π → Proxy) :
+def modelDecV2R (root : Nat) (att : Key → List WRef) (view : ProtocolV2.World Key → π → Proxy) :
     π → XType → ProtocolV2.World Key → ProtocolV2.Req Key σ Reason → Bool :=
   fun p t wl r =>
-    pushDecision root t (reqOfV2 r) (decidingProxy (refreshedView (reqOfV2 r) (view r.push p) (view wl p)) (view wl p))
+    pushDecision root t (reqOfV2 att r)
+      (decidingProxy (refreshedView (reqOfV2 att r) (view r.push p) (view wl p)) (view wl p))
 
 /-- **`convergence_model_refresh`.** The same conclusion for the decision that keeps the unrefreshed
     parts of the proxy state, under `RefreshOK`.  (Remaining approximation, stated plainly: the
@@ -239,25 +260,26 @@ def modelDecV2R (root : Nat) (view : ProtocolV2.World Key → π → Proxy) :
     before the last RESET, which - under `RefreshOK` - is the same scope when this request resets it,
     and an older, additional dependency set when it does not: the real filter then keeps at least
     the keys the model keeps, and a decision that skips less keeps `SkipOKOn`, `skipOKOn_of_skips_less`.) -/
-theorem convergence_model_refresh (root : Nat) (view : ProtocolV2.World Key → π → Proxy)
+theorem convergence_model_refresh (root : Nat) (att : Key → List WRef)
+    (view : ProtocolV2.World Key → π → Proxy)
     (gen : σ → π → XType → ρ) (build : ProtocolV2.World Key → σ)
     (rebuild : σ → List Key → Bool → ProtocolV2.World Key → σ)
-    (hrb : ProtocolV2.RebuildOK build rebuild) (hframe : ModelFrame root view gen build)
+    (hrb : ProtocolV2.RebuildOK build rebuild) (hframe : ModelFrame root att view gen build)
     (hrefresh : RefreshOK view)
     (w0 : ProtocolV2.World Key) (h0 : π → XType → ρ) (l : List (ProtocolV2.Step Key π Reason))
     (hl : ProtocolV2.StepsCarry OrdinaryReason l)
-    (hq : ProtocolV2.Quiescent (ProtocolV2.run rebuild gen (modelDecV2R (σ := σ) root view) (ProtocolV2.init build w0 h0) l)) :
-    ∀ p t, (ProtocolV2.run rebuild gen (modelDecV2R (σ := σ) root view) (ProtocolV2.init build w0 h0) l).conn p = true →
-      (ProtocolV2.run rebuild gen (modelDecV2R (σ := σ) root view) (ProtocolV2.init build w0 h0) l).held p t =
-        gen (build (ProtocolV2.run rebuild gen (modelDecV2R (σ := σ) root view) (ProtocolV2.init build w0 h0) l).world) p t := by
-  have hok : ProtocolV2.SkipOKOn OrdinaryReason gen build (modelDecV2R (σ := σ) root view) := by
+    (hq : ProtocolV2.Quiescent (ProtocolV2.run rebuild gen (modelDecV2R (σ := σ) root att view) (ProtocolV2.init build w0 h0) l)) :
+    ∀ p t, (ProtocolV2.run rebuild gen (modelDecV2R (σ := σ) root att view) (ProtocolV2.init build w0 h0) l).conn p = true →
+      (ProtocolV2.run rebuild gen (modelDecV2R (σ := σ) root att view) (ProtocolV2.init build w0 h0) l).held p t =
+        gen (build (ProtocolV2.run rebuild gen (modelDecV2R (σ := σ) root att view) (ProtocolV2.init build w0 h0) l).world) p t := by
+  have hok : ProtocolV2.SkipOKOn OrdinaryReason gen build (modelDecV2R (σ := σ) root att view) := by
     intro p t wl r hrs hf hdec hcov
-    have heq : modelDecV2R (σ := σ) root view p t wl r = modelDecV2 (σ := σ) root view p t wl r := by
+    have heq : modelDecV2R (σ := σ) root att view p t wl r = modelDecV2 (σ := σ) root att view p t wl r := by
       unfold modelDecV2R modelDecV2
-      rw [refreshedView_eq view hrefresh wl r.push p (reqOfV2 r) rfl hcov]
+      rw [refreshedView_eq view hrefresh wl r.push p (reqOfV2 att r) rfl hcov]
     rw [heq] at hdec
-    exact modelDecV2_skipOKOn root view gen build hframe p t wl r hrs hf hdec hcov
-  exact ProtocolV2.convergence_on OrdinaryReason build rebuild gen (modelDecV2R (σ := σ) root view) hrb hok w0 h0 l hl hq
+    exact modelDecV2_skipOKOn root att view gen build hframe p t wl r hrs hf hdec hcov
+  exact ProtocolV2.convergence_on OrdinaryReason build rebuild gen (modelDecV2R (σ := σ) root att view) hrb hok w0 h0 l hl hq
 
 omit [DecidableEq π] in
 /-- A decision that skips at most where a sound decision skips is sound. -/
